@@ -5,7 +5,8 @@ import common, gen, gen_tables
 RULE = ('exhaustive: all 250 supported protocol versions x 8 state/direction tables, evaluated by the Coq kernel over the '
         'tables reified from the source on this run (each (version, table) is one case; non-trivial = non-empty table); the '
         'remaining known versions are swept by the same oracle and reported, not asserted; decoder tables of the real reactors '
-        'are rebuilt under several hash seeds and compared.')
+        'are rebuilt under several hash seeds and compared; the reifier re-evaluates every version newest-first and alternating '
+        'between both ends on one reused context, and the oracle is run on every evaluation that differs.')
 
 REACTOR_SCRIPT = r'''
 import json, sys
@@ -79,6 +80,26 @@ def run(chk):
             what = 'protocol %d %s: %s' % (c['proto'], c['table'], c['kind'])
         found = True
         chk.violation('tables', key, {'case': detail}, what)
+    # the same oracle on evaluations that came out differently in another evaluation order / on a reused context
+    supset = set(t['supported_protocols'])
+    for a in t.get('per_version_alt', []):
+        if a['proto'] not in supset:
+            continue
+        chk.count('history', [a['proto'], a['order']], True)
+        t2 = {'supported_protocols': [a['proto']], 'known_protocols': [a['proto']], 'per_version': [a['evaluation']]}
+        cs = [c for c in gen_tables.collisions(t2) if gen_tables.finding_key(c) not in set(gen_tables.finding_key(x) for x in sup)]
+        for c in cs[:3]:
+            key = 'history:' + gen_tables.finding_key(c)
+            what = ('protocol %d %s, evaluated %s after protocol %s on a reused context: ' % (c['proto'], c['table'], a['order'], a['previous']) +
+                    ('%s share id 0x%02X' % (' and '.join(x.split(':')[-1] for x in c['classes']), c['id']) if c['kind'] == 'collision' else
+                     '%s has no usable id' % c.get('class', '?').split(':')[-1] if c['kind'] == 'no id' else c['kind']))
+            chk.violation('history', key, {'case': dict(c, order=a['order'], previous=a['previous'])}, what)
+        if not cs:
+            first = t['per_version'][a['index']]
+            diff = [tn for tn in gen_tables.TABLE_NAMES if first['tables'][tn] != a['evaluation']['tables'][tn]] or \
+                   [q for q in first['classes'] if first['classes'][q] != a['evaluation']['classes'].get(q)]
+            chk.broken('reifier', 'tables at protocol %d are not a function of the version (evaluated %s after %s): %s differ' % (
+                a['proto'], a['order'], a['previous'], diff[:4]))
     if not ok and not chk.violations:
         # proof failed but the oracle found nothing new: the obligation itself no longer checks
         chk.broken('Properties/C06.v', out)
